@@ -534,8 +534,8 @@ pub struct ExecResult {
 impl ExecResult {
     /// Leaks the remaining handles.  Call this AFTER the observations have been taken, still
     /// inside the dispatcher scope or not: a leaked handle never calls `try_close`.
-    pub fn leak(self) {
-        for hs in self.handles {
+    pub fn leak(mut self) {
+        for hs in std::mem::take(&mut self.handles) {
             for h in hs {
                 std::mem::forget(h);
             }
@@ -637,6 +637,31 @@ pub fn exec_op(r: &mut ExecResult, sites: &[&'static DynSite], op: &Op) {
                 r.events_dispatched += 1;
             } else {
                 r.events_disabled += 1;
+            }
+        }
+    }
+}
+
+/// Dropping the interpreter state drops the remaining handles in creation order, as before; but a
+/// handle whose `try_close` panics (a capture layer with a poisoned storage, say) must not take the
+/// process down: while a panic is already unwinding, and after the first panicking drop, the
+/// remaining handles are leaked instead (a second panic during unwinding aborts the process).
+impl Drop for ExecResult {
+    fn drop(&mut self) {
+        let handles = std::mem::take(&mut self.handles);
+        if std::thread::panicking() {
+            for h in handles.into_iter().flatten() {
+                std::mem::forget(h);
+            }
+            return;
+        }
+        let mut it = handles.into_iter().flatten();
+        while let Some(h) = it.next() {
+            if let Err(e) = std::panic::catch_unwind(std::panic::AssertUnwindSafe(move || drop(h))) {
+                for rest in it {
+                    std::mem::forget(rest);
+                }
+                std::panic::resume_unwind(e);
             }
         }
     }
